@@ -770,3 +770,120 @@ Proof.
   split; [congruence|]. intros [i1 i2] [[? ?] [? ?]]. cbn [fst snd] in *. unfold sid_le, sid_lt. cbn [fst snd].
   destruct (Z.eq_dec i1 (s_ams s)); destruct (Z.eq_dec i2 (s_aseq s)); subst; try (left; lia). right; reflexivity.
 Qed.
+
+(** ---- ID text (after the repair 3be45c2): StreamId::from_string is exact ----
+    [parse_digits] (Base/Bytes.v) is the declarative reading of a decimal number: at least
+    one byte, digits only, the unbounded value. *)
+Lemma digits_val_mono : forall l acc v, 0 <= acc -> digits_val l acc = Some v -> acc <= v.
+Proof.
+  induction l as [|c r IH]; cbn [digits_val]; intros acc v Ha H; [injection H as <-; lia|].
+  destruct (is_digit c) eqn:E; [|discriminate]. unfold is_digit in E. apply andb_prop in E as [E1 E2].
+  apply Z.leb_le in E1, E2. apply IH in H; lia.
+Qed.
+Lemma parse_u64_digits_spec : forall l acc v, 0 <= acc <= u64_max ->
+  parse_u64_digits l acc = Some v <-> digits_val l acc = Some v /\ v <= u64_max.
+Proof.
+  induction l as [|c r IH]; cbn [parse_u64_digits digits_val]; intros acc v Ha.
+  - split; [intros H; injection H as <-; split; [reflexivity|lia] | intros [H _]; exact H].
+  - destruct (is_digit c) eqn:E; [|split; [discriminate | intros [H _]; discriminate]].
+    pose proof E as E'. unfold is_digit in E'. apply andb_prop in E' as [E1 E2]. apply Z.leb_le in E1, E2.
+    destruct (Z.leb_spec (acc * 10) u64_max) as [L1|L1].
+    + destruct (Z.leb_spec (acc * 10 + (c - 48)) u64_max) as [L2|L2].
+      * apply IH. lia.
+      * split; [discriminate|]. intros [H Hv]. apply digits_val_mono in H; lia.
+    + split; [discriminate|]. intros [H Hv]. apply digits_val_mono in H; lia.
+Qed.
+(** one part: accepted iff it is a non-empty decimal number that fits in 64 bits, and then
+    it is that number *)
+Theorem parse_u64_fast_exact l v : parse_u64_fast l = Some v <-> parse_digits l = Some v /\ v <= u64_max.
+Proof.
+  unfold parse_u64_fast, parse_digits. destruct l as [|c r]; [split; [discriminate | intros [H _]; discriminate]|].
+  apply parse_u64_digits_spec. unfold u64_max. lia.
+Qed.
+
+Lemma split_dash_spec : forall l a b, split_dash l = Some (a, b) -> l = a ++ 45 :: b /\ ~ In 45 a.
+Proof.
+  induction l as [|c r IH]; intros a b; cbn [split_dash]; [discriminate|].
+  destruct (Z.eqb_spec c 45) as [->|N].
+  - intros H; injection H as <- <-. split; [reflexivity | intros []].
+  - destruct (split_dash r) as [[a' b']|]; [|discriminate].
+    intros H; injection H as <- <-. destruct (IH a' b' eq_refl) as [-> Hn].
+    split; [reflexivity|]. intros [E|E]; [congruence | exact (Hn E)].
+Qed.
+Lemma split_dash_app : forall a b, ~ In 45 a -> split_dash (a ++ 45 :: b) = Some (a, b).
+Proof.
+  induction a as [|c a IH]; intros b Hn; cbn [app split_dash]; [reflexivity|].
+  destruct (Z.eqb_spec c 45) as [->|N]; [exfalso; apply Hn; left; reflexivity|].
+  rewrite IH; [reflexivity|]. intros E. apply Hn. right. exact E.
+Qed.
+Lemma split_dash_none l : split_dash l = None <-> ~ In 45 l.
+Proof.
+  induction l as [|c r IH]; cbn [split_dash In]; [tauto|].
+  destruct (Z.eqb_spec c 45) as [->|N]; [split; [discriminate | intros H; exfalso; apply H; left; reflexivity]|].
+  destruct (split_dash r) as [[a b]|].
+  - split; [discriminate|]. intros H. exfalso. assert (Hr : ~ In 45 r) by tauto. apply IH in Hr. discriminate.
+  - split; [|reflexivity]. intros _ [E|E]; [congruence|]. apply IH in E; [exact E | reflexivity].
+Qed.
+Lemma digits_no_dash : forall l acc v, digits_val l acc = Some v -> ~ In 45 l.
+Proof.
+  induction l as [|c r IH]; cbn [digits_val]; intros acc v H; [intros []|].
+  destruct (is_digit c) eqn:E; [|discriminate]. intros [->|Hin]; [discriminate E|]. exact (IH _ _ H Hin).
+Qed.
+
+(** the whole ID: a text is accepted iff it is <decimal> '-' <decimal> with both numbers
+    non-empty and at most u64::MAX, and then it denotes exactly that pair *)
+Theorem id_text_exact l a b : sid_of_bytes l = Some (a, b) <->
+  exists da db, l = da ++ 45 :: db /\ parse_digits da = Some a /\ parse_digits db = Some b /\
+                a <= u64_max /\ b <= u64_max.
+Proof.
+  unfold sid_of_bytes. split.
+  - destruct (split_dash l) as [[da db]|] eqn:E; [|discriminate]. apply split_dash_spec in E as [-> _].
+    destruct (parse_u64_fast da) as [ms|] eqn:E1; [|discriminate].
+    destruct (parse_u64_fast db) as [sq|] eqn:E2; [|discriminate].
+    intros H; injection H as <- <-. apply parse_u64_fast_exact in E1 as [? ?], E2 as [? ?].
+    exists da, db. auto.
+  - intros (da & db & -> & Ha & Hb & La & Lb).
+    assert (Hn : ~ In 45 da).
+    { unfold parse_digits in Ha. destruct da; [discriminate|]. eapply digits_no_dash; exact Ha. }
+    rewrite (split_dash_app _ _ Hn).
+    assert (parse_u64_fast da = Some a) as -> by (apply parse_u64_fast_exact; auto).
+    assert (parse_u64_fast db = Some b) as -> by (apply parse_u64_fast_exact; auto).
+    reflexivity.
+Qed.
+Theorem id_text_in_u64 l i : sid_of_bytes l = Some i -> in_u64 i.
+Proof.
+  destruct i as [a b]. intros H. apply id_text_exact in H as (da & db & _ & Ha & Hb & La & Lb).
+  assert (Hp : forall d v, parse_digits d = Some v -> 0 <= v).
+  { intros d v. unfold parse_digits. destruct d; [discriminate|]. intros H. apply digits_val_mono in H; lia. }
+  split; cbn [fst snd]; split; eauto.
+Qed.
+(** what is rejected: no dash, an empty part, a non-digit, a part above u64::MAX *)
+Theorem id_text_rejected l : sid_of_bytes l = None <->
+  ~ In 45 l \/
+  exists da db, l = da ++ 45 :: db /\ ~ In 45 da /\
+    (forall a b, ~ (parse_digits da = Some a /\ parse_digits db = Some b /\ a <= u64_max /\ b <= u64_max)).
+Proof.
+  split.
+  - intros H. destruct (split_dash l) as [[da db]|] eqn:E.
+    + right. apply split_dash_spec in E as E'. destruct E' as [-> Hn]. exists da, db. split; [reflexivity|]. split; [exact Hn|].
+      intros a b (Ha & Hb & La & Lb).
+      assert (K : sid_of_bytes (da ++ 45 :: db) = Some (a, b)) by (apply id_text_exact; exists da, db; auto).
+      congruence.
+    + left. apply split_dash_none. exact E.
+  - intros [Hn | (da & db & -> & Hn & Hno)].
+    + unfold sid_of_bytes. apply split_dash_none in Hn. rewrite Hn. reflexivity.
+    + destruct (sid_of_bytes (da ++ 45 :: db)) as [[a b]|] eqn:E; [exfalso | reflexivity].
+      apply id_text_exact in E as (da' & db' & El & Ha & Hb & La & Lb).
+      assert (Hn' : ~ In 45 da').
+      { unfold parse_digits in Ha. destruct da'; [discriminate|]. eapply digits_no_dash; exact Ha. }
+      pose proof (split_dash_app da db Hn) as S1. rewrite El, (split_dash_app da' db' Hn') in S1.
+      injection S1 as <- <-. apply (Hno a b). auto.
+Qed.
+(** printing and parsing agree on every u64 ID *)
+Theorem id_text_roundtrip i : in_u64 i -> sid_of_bytes (sid_to_bytes i) = Some i.
+Proof.
+  destruct i as [a b]. intros [[A1 A2] [B1 B2]]. cbn [fst snd] in *. apply id_text_exact.
+  exists (print_nat a), (print_nat b). unfold sid_to_bytes. cbn [fst snd app].
+  assert (Hlt : u64_max < 10 ^ 40) by (unfold u64_max; lia).
+  destruct (print_nat_spec a) as [Pa _]; [lia|]. destruct (print_nat_spec b) as [Pb _]; [lia|]. auto.
+Qed.
